@@ -302,7 +302,7 @@ func main() {
 		"samples":                       []any{callAlphabet()[:3], total.Sample}, "exhaustive": total.Exhaustive,
 		"history_depth": depth, "call_alphabet": len(callAlphabet()),
 		"local_store": seq["local"], "crawl_hq": seq["hq"], "pipeline_scenarios": len(ss), "pipeline_executions": total.Executions,
-		"explanation": "every history of up to `history_depth` seen-checks (54 call shapes: seed / redirect target / asset / two assets x 6 URL spellings in 5 equivalence classes) through the real preprocess() on the real LevelDB store and on crawl HQ's seencheck endpoint, compared check by check with a map-based reference including the asset->seed promotion; plus pairs of concurrent preprocess() calls on the real local store (conc.go: every interleaving within the preemption bound, may/must oracle from call stamps) and duplicate-bearing sites through the real pipeline under the scheduler",
+		"explanation":           "every history of up to `history_depth` seen-checks (54 call shapes: seed / redirect target / asset / two assets x 6 URL spellings in 5 equivalence classes) through the real preprocess() on the real LevelDB store and on crawl HQ's seencheck endpoint, compared check by check with a map-based reference including the asset->seed promotion; plus pairs of concurrent preprocess() calls on the real local store (conc.go: every interleaving within the preemption bound, may/must oracle from call stamps) and duplicate-bearing sites through the real pipeline under the scheduler",
 		"concurrent_call_pairs": len(concScenarios(a.Tier)),
 	}, []string{
 		"equivalence classes of the URL spellings are known by construction (case of scheme/host, default port, fragment)",
